@@ -187,6 +187,39 @@ def applyMNT (k : Kind) (p : Par α) (mean trend raw : α) : Option α :=
 def removeTNM (k : Kind) (p : Par α) (mean trend v : α) : Option α :=
   (normalize k p (v - trend)).map (· - mean)
 
+/-! ### the pipeline slots of the field classes
+
+  Every field class hands its constructor arguments `mean`, `normalizer`, `trend` to `Field.__init__`
+  (krige/methods.py: `Simple`, `Ordinary`, `Universal`, `ExtDrift`, `Detrended` → `Krige.__init__` → `Field.__init__`;
+  field/srf.py; a `CondSRF` uses the slots of its Krige object).  An argument a class does not have is `None`:
+  mean / trend 0, identity normalizer. -/
+
+inductive FieldClass where
+  | simple | ordinary | universal | extDrift | detrended | krige | srf
+  deriving DecidableEq, Repr, Inhabited
+
+/-- does the constructor take a `mean` -/
+def FieldClass.hasMean : FieldClass → Bool
+  | .simple | .krige | .srf => true
+  | .ordinary | .universal | .extDrift | .detrended => false
+
+/-- does the constructor take a `normalizer` -/
+def FieldClass.hasNorm : FieldClass → Bool
+  | .detrended => false
+  | _ => true
+
+/-- the slots `(normalizer, mean, trend)` of the object built from the caller's arguments (cell values) -/
+def slots (c : FieldClass) (k : Kind) (mean trend : α) : Kind × α × α :=
+  (if c.hasNorm then k else .identity, if c.hasMean then mean else ((0:Nat):α), trend)
+
+/-- a cell of the object's output for the raw (kriged / generated / conditioned) value `raw` -/
+def classOutput (c : FieldClass) (k : Kind) (p : Par α) (mean trend raw : α) : Option α :=
+  applyMNT (slots c k mean trend).1 p (slots c k mean trend).2.1 (slots c k mean trend).2.2 raw
+
+/-- a conditioning value as the kriging system sees it (`Krige._krige_cond`) -/
+def classCond (c : FieldClass) (k : Kind) (p : Par α) (mean trend v : α) : Option α :=
+  removeTNM (slots c k mean trend).1 p (slots c k mean trend).2.1 (slots c k mean trend).2.2 v
+
 /-! ### `Normalizer.__init__(data, **parameter)` and `Normalizer.fit(data, skip, **kwargs)`: parameter bookkeeping
 
    The optimiser (`scipy.optimize.minimize_scalar` / `minimize`) is a parameter of the model: all that `fit`
@@ -306,6 +339,17 @@ def kindOf (s : String) : Except String Kind :=
   | "Manly" => .ok .manly
   | _ => .error s!"unknown normalizer {s}"
 
+def classOf (s : String) : Except String FieldClass :=
+  match s with
+  | "Simple" => .ok .simple
+  | "Ordinary" => .ok .ordinary
+  | "Universal" => .ok .universal
+  | "ExtDrift" => .ok .extDrift
+  | "Detrended" => .ok .detrended
+  | "Krige" => .ok .krige
+  | "SRF" => .ok .srf
+  | _ => .error s!"unknown field class {s}"
+
 def fnan : Float := Float.ofBits 0x7FF8000000000000
 def finf : Float := Float.ofBits 0x7FF0000000000000
 def optF (o : Option Float) : Float := o.getD fnan
@@ -371,6 +415,21 @@ def ops (op : String) (j : Json) : Option (Except String Json) :=
         optF ((applyMNT k p mean[i]! trend[i]! raw[i]!).bind (removeTNM k p mean[i]! trend[i]!))
       let rem := idx.map fun i => optF (removeTNM k p mean[i]! trend[i]! raw[i]!)
       return Json.arr #[fl app, fl back, fl rem])
+  | "norm_class_pipeline" => some (do
+      -- output cells and prepared conditioning values of a field class from the CALLER's mean / trend values
+      let (k, p) ← getPar j
+      let c ← classOf (← getStr j "class")
+      let raw ← getFloats j "raw"
+      let mean ← getFloats j "mean"
+      let trend ← getFloats j "trend"
+      let cval ← getFloats j "cval"
+      let cmean ← getFloats j "cmean"
+      let ctrend ← getFloats j "ctrend"
+      if mean.size != raw.size || trend.size != raw.size then throw "norm_class_pipeline: sizes" else
+      if cmean.size != cval.size || ctrend.size != cval.size then throw "norm_class_pipeline: cond sizes" else
+      let out := (List.range raw.size).map fun i => optF (classOutput c k p mean[i]! trend[i]! raw[i]!)
+      let cond := (List.range cval.size).map fun i => optF (classCond c k p cmean[i]! ctrend[i]! cval[i]!)
+      return Json.arr #[fl out, fl cond])
   | "norm_fit" => some (do
       -- bookkeeping of Normalizer.__init__ / fit with a scripted optimiser
       let names ← getStrs j "names"
